@@ -93,6 +93,9 @@ func (it *Interp) writeElems(fr *frame, dst *SliceV, start *Term, vals []Value, 
 		if it.ex.branch(it.tt.Eq(n, it.tt.Const(64, 0)), false) {
 			return
 		}
+		// prefer a witness that writes several bytes: the native race detector
+		// does not flag a one-byte self-copy
+		it.ex.preferModel(it.tt.Ult(it.tt.Const(64, 3), n))
 	}
 	arr := it.arrayOf(dst.base)
 	for k, v := range vals {
@@ -192,6 +195,10 @@ func (it *Interp) callIntrinsic(fr *frame, f *FuncV, args []Value, site ssa.Inst
 		case *SliceV:
 			return it.sliceLen(x)
 		case *StrV:
+			if x.opaque {
+				// formatted text: its length is unknown; any value 0..65535
+				return tt.ZExt(tt.Var(it.freshName("opaque.len"), 16), 64)
+			}
 			return tt.Const(64, uint64(it.strLen(x)))
 		case *MapV:
 			if x.obj == nil {
